@@ -244,7 +244,9 @@ Definition attr_ok (cfg : config) (its : list item) (attr : list (node * list (c
       end
   end.
 
-Definition c06_ok1 (i : c06_in) (o : out1) : bool :=
+(* the clauses on the result itself: no panic / hang, the attributed observations, and the success clause of
+   C06_sig_threshold (signatures strictly ascending by signer address: C06_sigs_strictly_ordered) *)
+Definition c06_core (i : c06_in) (o : out1) : bool :=
   let cfg := i_cfg i in
   negb (N.eqb (o_kind o) 9) && negb (N.eqb (o_kind o) 10) && attr_ok cfg (i_items i) (o_attr o) &&
   (if N.eqb (o_kind o) 0 then
@@ -273,8 +275,172 @@ Definition c06_ok1 (i : c06_in) (o : out1) : bool :=
      | _ => false
      end
    else true).
-Definition c06_ok (i : c06_in) (o : c06_out) : bool :=
-  match o with [x] => c06_ok1 i x | _ => false end.
+
+(* ---------- the Send log: every PeerClient.Send call of the run (C06_requests_wellformed) ----------
+   an observation request goes only to a configured observer of every chain it names, and names requested lanes only;
+   no node is sent two observation requests (C06_one_observation_per_node read on the log); a report-signature request
+   goes only to a configured signer that RMNHome knows, no signer has two ACCEPTED signature requests; and a signature
+   request leaves the controller exactly when phase A handed observations on (then [attr_ok] demands F_home+1
+   carriers per lane: signature requests only after the observation threshold, C06_obs_threshold).  If the
+   configuration is refused before the first select nothing is sent at all. *)
+Definition snd_kind (s : send_t) : N := fst (fst (fst (fst s))).
+Definition snd_node (s : send_t) : node := snd (fst (fst (fst s))).
+Definition snd_ok (s : send_t) : bool := snd (fst s).
+Definition snd_chains (s : send_t) : list chain := snd s.
+Definition is_k0 (s : send_t) : bool := N.eqb (snd_kind s) 0.
+Definition is_k1 (s : send_t) : bool := N.eqb (snd_kind s) 1.
+Definition log_ok (cfg : config) (log : list send_t) (attr : list (node * list (chain * root))) : bool :=
+  match prepare cfg with
+  | inl (Ok us) =>
+      forallb (fun s =>
+        if is_k0 s
+        then forallb (fun ch => memN ch (map u_chain us) && memN (snd_node s) (rmn_nodes_of cfg ch)) (snd_chains s)
+        else is_k1 s && memN (snd_node s) (signer_nodes cfg) && is_home cfg (snd_node s)) log &&
+      nodupb N.eqb (map snd_node (filter is_k0 log)) &&
+      nodupb N.eqb (map snd_node (filter (fun s => is_k1 s && snd_ok s) log)) &&
+      Bool.eqb (existsb is_k1 log) (negb (nilb attr))
+  | _ => nilb log && nilb attr
+  end.
+
+(* ---------- WHEN the call may fail (C06_failure_origin) ----------
+   a configuration error (duplicate chain / no F / nothing to do) is reported exactly when the configuration has it;
+   ErrTimeout only if the context was cancelled within the script; ErrInsufficientObservationResponses only in phase A
+   (no signature request has left the controller).  The other error kinds are constrained by the liveness clause
+   below only. *)
+Definition is_cancel (it : item) : bool := match it with ICancel | IRaceCancel => true | _ => false end.
+Definition kind_ok (cfg : config) (its : list item) (o : out1) : bool :=
+  match prepare cfg with
+  | inr f => N.eqb (o_kind o) (fail_code f)
+  | _ => negb (N.eqb (o_kind o) 3)
+  end &&
+  (if N.eqb (o_kind o) 4 then existsb is_cancel its else true) &&
+  (if N.eqb (o_kind o) 5 then negb (existsb is_k1 (o_log o)) else true).
+
+(* ---------- liveness (C06_liveness) as a test on the case ----------
+   The hypotheses of the theorem are decidable once the schedule and the event list are fixed, because they speak about
+   the states the MODEL is in when a response arrives (is this request id the one sent to this node?).  [eager_evs] are
+   the event lists behind [eager_acc] (same branching: due timers, races); for each of them [live_hyp] evaluates the
+   hypotheses with
+     rho  = per requested lane the non-empty root with the most correctly signed votes in the script,
+     hon  = the nodes that never answer a request that was sent to them wrongly (w.r.t. rho / the report to sign),
+     q u  = honest observers of lane u that answered in time, qs = honest known signers that answered in time.
+   If the test holds for EVERY schedule and event list the model allows, the call must succeed. *)
+Fixpoint eager_evs (cfg : config) (sc : sched) (g : gstate) (its : list item) : list (list event) :=
+  let st := step1 cfg sc in
+  let tf := if g_due g then [TimerFire] else [] in
+  let gs := settle cfg sc g in
+  match its with
+  | [] => [tf]
+  | IResp n b :: r => map (fun l => tf ++ Resp n b :: l) (eager_evs cfg sc (st gs (Resp n b)) r)
+  | ICancel :: r => map (fun l => tf ++ CtxDone :: l) (eager_evs cfg sc (st gs CtxDone) r)
+  | IRace n b :: r =>
+      if g_due g
+      then map (fun l => tf ++ Resp n b :: l) (eager_evs cfg sc (st gs (Resp n b)) r) ++
+           map (fun l => Resp n b :: l) (eager_evs cfg sc (st g (Resp n b)) r)
+      else map (fun l => Resp n b :: l) (eager_evs cfg sc (st g (Resp n b)) r)
+  | IRaceCancel :: r =>
+      if g_due g
+      then map (fun l => tf ++ CtxDone :: l) (eager_evs cfg sc (st gs CtxDone) r) ++
+           map (fun l => CtxDone :: l) (eager_evs cfg sc (st g CtxDone) r)
+      else map (fun l => CtxDone :: l) (eager_evs cfg sc (st g CtxDone) r)
+  end.
+
+Definition in_ids (id : reqid) (h : node) (ids : ids_t) : bool :=
+  existsb (fun p => N.eqb (fst p) id && N.eqb (snd p) h) ids.
+(* [good_answer] / [good_sig] of Proofs/RmnP.v *)
+Definition good_answerb (cfg : config) (us : list upd) (rho : chain -> root) (h : node) (p : payload) : bool :=
+  match validate_obs edv_c fixed cfg h us p with
+  | Ok votes =>
+      forallb (fun u => negb (memN h (u_nodes u)) ||
+                        existsb (fun v => N.eqb (fst v) (u_chain u) &&
+                                          match snd v with R32 r => N.eqb r (rho (u_chain u)) | _ => false end) votes) us
+  | _ => false
+  end.
+Definition good_sigb (cfg : config) (rep : report) (h : node) (p : payload) : bool :=
+  match find_signer cfg h, p with
+  | Some sg, PSig (Some e) => e_lenok e && vrs_c (sg_addr sg) (e_sig e) rep
+  | _, _ => false
+  end.
+(* [honest_at]: a response under a request id that was sent to this node is a correct answer *)
+Definition hon_okb (cfg : config) (us : list upd) (rho : chain -> root) (g : gstate) (h : node) (id : reqid) (p : payload)
+  : bool :=
+  match g with
+  | GA _ s => if in_ids id h (a_ids s) then good_answerb cfg us rho h p else true
+  | GB s => if in_ids id h (b_ids s) then good_sigb cfg (b_rep s) h p else true
+  | GFinal _ _ => true
+  end.
+(* [answered_A] / [answered_B] *)
+Definition ansAb (g : gstate) (h : node) (id : reqid) (_ : payload) : bool :=
+  match g with GA _ s => in_ids id h (a_ids s) | _ => true end.
+Definition ansBb (g : gstate) (h : node) (id : reqid) (_ : payload) : bool :=
+  match g with GA _ _ => false | GB s => in_ids id h (b_ids s) | GFinal _ _ => true end.
+(* the senders of the responses at whose arrival [f] holds of the state the model is in *)
+Fixpoint collect (cfg : config) (sc : sched) (f : gstate -> node -> reqid -> payload -> bool) (g : gstate)
+                 (evs : list event) : list node :=
+  match evs with
+  | [] => []
+  | e :: r =>
+      match e with
+      | Resp h (BMsg id p) =>
+          if f g h id p then h :: collect cfg sc f (step1 cfg sc g e) r else collect cfg sc f (step1 cfg sc g e) r
+      | _ => collect cfg sc f (step1 cfg sc g e) r
+      end
+  end.
+Definition is_ctx (e : event) : bool := match e with CtxDone => true | _ => false end.
+
+Definition live_hyp (cfg : config) (sc : sched) (us : list upd) (rho : chain -> root) (evs : list event) : bool :=
+  let g0 := ginit cfg sc in
+  let bad := collect cfg sc (fun g h id p => negb (hon_okb cfg us rho g h id p)) g0 evs in
+  let hon := fun h => negb (memN h bad) in
+  let aA := collect cfg sc ansAb g0 evs in
+  let aB := collect cfg sc ansBb g0 evs in
+  negb (existsb is_ctx evs) &&
+  forallb (fun u =>
+    Z.leb (u_F u + 1) (zlen (dedupN (filter (fun h => hon h && memN h aA) (u_nodes u)))) &&
+    Z.leb 0 (u_F u) &&
+    Z.leb (zlen (filter (fun n => negb (hon n)) (u_nodes u))) (u_F u)) us &&
+  Z.leb (c_remoteF cfg + 1)
+        (zlen (dedupN (filter (fun h => hon h && memN h aB && is_home cfg h) (signer_nodes cfg)))) &&
+  Z.leb 0 (c_remoteF cfg).
+
+(* the non-empty root with the most voters for lane u in the script (0 if there is none) *)
+Definition best_root (cfg : config) (u : upd) (its : list item) : root :=
+  fold_left (fun best r =>
+               if N.eqb r 0 then best
+               else if N.eqb best 0 then r
+               else if Z.ltb (zlen (voters cfg u best its)) (zlen (voters cfg u r its)) then r else best)
+            (dedupN (item_roots its)) 0%N.
+Definition rho_of (tab : list (chain * root)) (ch : chain) : root :=
+  match alookup ch tab with Some r => r | None => 0%N end.
+
+Definition live_test_from (off : nat) (i : c06_in) : bool :=
+  let cfg := i_cfg i in
+  match prepare cfg with
+  | inl (Ok us) =>
+      let rho := rho_of (map (fun u => (u_chain u, best_root cfg u (i_items i))) us) in
+      if c_dest_known cfg && forallb negb (i_fails i) && negb (existsb is_cancel (i_items i)) &&
+         forallb (fun u => negb (N.eqb (rho (u_chain u)) 0)) us
+      then
+        let roots := dedupN (item_roots (i_items i)) in
+        let rootords := if memN 0%N roots then [[0%N]; filter (fun r => negb (N.eqb r 0)) roots] else [[]] in
+        forallb (fun order1 =>
+          forallb (fun ro =>
+            let sc := mk_sched off order1 (i_asked i) (i_sendA2 i) ro (i_shufB1 i) (i_shufB2 i) (i_fails i) in
+            forallb (live_hyp cfg sc us rho) (eager_evs cfg sc (ginit cfg sc) (i_items i)))
+            rootords)
+          (rotations (i_asked i))
+      else false
+  | _ => false
+  end.
+
+(* the executable property of one outcome of a call whose request ids start at 1 + off *)
+Definition c06_ok1_from (off : nat) (i : c06_in) (o : out1) : bool :=
+  c06_core i o && log_ok (i_cfg i) (o_log o) (o_attr o) && kind_ok (i_cfg i) (i_items i) o &&
+  (if N.eqb (o_kind o) 0 then true else negb (live_test_from off i)).
+Definition c06_ok1 := c06_ok1_from 0.
+Definition c06_ok_from (off : nat) (i : c06_in) (o : c06_out) : bool :=
+  match o with [x] => c06_ok1_from off i x | _ => false end.
+Definition c06_ok := c06_ok_from 0.
 
 Definition c06_judge := judge c06_model c06_oeqb c06_ok (fun _ => 0%N).
 
@@ -296,7 +462,10 @@ Fixpoint forall2b {A B} (f : A -> B -> bool) (l : list A) (m : list B) : bool :=
   | _, _ => false
   end.
 Definition hist_oeqb (m o : hist_out) : bool := forall2b c06_oeqb m o.
-Definition hist_ok (h : hist_in) (o : hist_out) : bool := forall2b (fun c x => c06_ok (snd c) x) h o.
+(* [every call is judged with ITS position in the request-id stream: the liveness clause asks whether a response came
+   under the id that was sent to its sender, which depends on where the call's ids start] *)
+Definition hist_ok (h : hist_in) (o : hist_out) : bool :=
+  forall2b (fun c x => c06_ok_from (N.to_nat (fst c)) (snd c) x) h o.
 Definition hist_judge := judge hist_model hist_oeqb hist_ok (fun _ => 0%N).
 
 (* the observer sets come from the RMNHome observer bitmaps (pkg/reader/rmn_home.go): parts borrowed from C18 *)
